@@ -721,6 +721,8 @@ def c19_special(pid, prop, tier, seed, b):
         add('fs', [s], s, 'fs', 'fs')
     for s in list(gens.token_sweep(1)) + (list(gens.token_sweep(2))[::7] if tier != 'quick' else []):
         add('fs', [s], s, 'fs-sweep', 'fs')
+    for s in ['99999999999999999999', '1-5,9223372036854775808', '1-99999999999999999999x2', '-9223372036854775809', '1-10x99999999999999999999', '9223372036854775807', '-9223372036854775808--9223372036854775806']:
+        add('fs', [s], s, 'fs-beyond-long', 'fs')
     for _ in range(600 * n):
         s, sh = gens.range_string(rng, deco=False)
         add('norm', [s], s, 'norm', 'norm')
@@ -733,7 +735,7 @@ def c19_special(pid, prop, tier, seed, b):
         w = rng.choice([2, 3, 4, 5, 8])
         add('padfr', [s, w], '%r width=%d' % (s, w), 'padfr', 'padfr')
     for st in (0, 1):
-        for w in range(1, 40):
+        for w in list(range(1, 40)) + [63, 64, 65, 68, 72, 100, 128, 256, 272]:
             add('pad', [st, w], 'style=%d width=%d' % (st, w), 'pad', 'all')
         for tok in gens.PAD_TOKENS:
             add('padsize', [st, tok], 'style=%d chars=%s' % (st, tok), 'padsize', 'all')
@@ -754,6 +756,8 @@ def c19_special(pid, prop, tier, seed, b):
         bn = gens.basename(rng)
         kk = rng.random()
         digits = '' if kk < 0.15 else ('0' * rng.choice([0, 0, 1, 3]) + str(rng.randint(0, 10 ** rng.randint(1, 5))))
+        if kk > 0.96:
+            digits = rng.choice(['99999999999999999999', '9223372036854775808', '9223372036854775807', '00000000000000000001', '18446744073709551616'])   # beyond a long: D22
         if digits and rng.random() < 0.15:
             digits = '-' + digits
         e = gens.extension(rng) if rng.random() < 0.5 else rng.choice(['.c.gz', '.7z.tmp', '.h.in', '.tar.gz', '.v1.exr', '.a1', '.1a', '.x.y.z', '.c', '.a.b.c', '.R.gz', '.9z.tmp'])
@@ -791,6 +795,20 @@ def c19_special(pid, prop, tier, seed, b):
         ents = list(dict.fromkeys(ents))
         opts = [o for o in (0, 1, rng.choice([2, 3])) if rng.random() < 0.5]
         path = 'k%d/d' % i
+        if i % 6 == 1:
+            # a lookup that fails (missing directory), then directories without any sequence member
+            # (empty, frame-less files only, hidden files only): what a failed call leaves behind
+            # (errno, a reused buffer) must not leak into the next answer
+            add('disk', [','.join(map(str, opts)), 'k%dm/missing/d' % i, 0], 'path=%r (missing)' % ('k%dm/missing/d' % i), 'disk-missing', 'listing',
+                dict(path='k%dm/missing/d' % i, ents=[], opts=opts, readable=0))
+            add('findseq', ['', 1, 'k%dn/missing/d/foo.#.exr' % i, 0], 'pattern in a missing directory', 'findseq-missing', 'listing',
+                dict(pat='k%dn/missing/d/foo.#.exr' % i, st=1, opts=[], ents=[], readable=0))
+            plain = rng.choice([[], ['F:notes.txt', 'F:README'], ['F:.hid.1.exr', 'F:.hid.2.exr'], ['F:readme.txt', 'D:sub'], ['F:a.b.c']])
+            for o3 in ([], [1], [0, 1]):
+                add('disk', [','.join(map(str, o3)), 'k%dp%d/d' % (i, len(o3)), 1] + plain, 'path=%r opts=%s entries=%r' % ('k%dp%d/d' % (i, len(o3)), o3, plain),
+                    'disk-plain', 'listing', dict(path='k%dp%d/d' % (i, len(o3)), ents=plain, opts=o3, readable=1))
+            add('findseq', ['', 1, 'k%dq/d/shot.#.exr' % i, 1] + plain, 'pattern=%r entries=%r' % ('k%dq/d/shot.#.exr' % i, plain),
+                'findseq-nomatch', 'listing', dict(pat='k%dq/d/shot.#.exr' % i, st=1, opts=[], ents=plain, readable=1))
         add('disk', [','.join(map(str, opts)), path, 1] + ents, 'path=%r opts=%s entries=%r' % (path, opts, ents), 'disk', 'listing',
             dict(path=path, ents=ents, opts=opts, readable=1))
         if seqs:
@@ -802,14 +820,18 @@ def c19_special(pid, prop, tier, seed, b):
             add('findseq', [','.join(map(str, o2)), stl, pat, 1] + ents, 'pattern=%r style=%d opts=%s entries=%r' % (pat, stl, o2, ents),
                 'findseq', 'listing', dict(pat=pat, st=stl, opts=o2, ents=ents, readable=1))
     lines = [c['line'] for c in cases]
-    disk_idx = [i for i, c in enumerate(cases) if c['op'] in ('disk', 'findseq')]
+    stateful = ('disk-missing', 'findseq-missing', 'disk-plain', 'findseq-nomatch')
+    state_idx = [i for i, c in enumerate(cases) if c['shape'] in stateful]
+    disk_idx = [i for i, c in enumerate(cases) if c['op'] in ('disk', 'findseq') and c['shape'] not in stateful]
     other_idx = [i for i, c in enumerate(cases) if c['op'] not in ('disk', 'findseq')]
     go_out = [None] * len(cases)
     cpp_out = [None] * len(cases)
-    for idxs, need_root in ((other_idx, False), (disk_idx, True)):
+    # the failing-lookup groups go through ONE process each, in order: they are about what a call
+    # leaves behind for the next one
+    for idxs, need_root, sh_ in ((other_idx, False, infra.NPROC), (disk_idx, True, infra.NPROC), (state_idx, True, 1)):
         sub = [lines[i] for i in idxs]
-        g = infra.run_driver(V + '/bin/godriver', sub, need_root=need_root)
-        c_ = infra.run_driver(V + '/bin/cppdriver', sub, need_root=need_root)
+        g = infra.run_driver(V + '/bin/godriver', sub, need_root=need_root, shards=sh_)
+        c_ = infra.run_driver(V + '/bin/cppdriver', sub, need_root=need_root, shards=sh_)
         for i, a, b_ in zip(idxs, g, c_):
             go_out[i], cpp_out[i] = a, b_
     # the same pure inputs through the extracted Coq model: where the port agrees with the model, the
